@@ -515,7 +515,7 @@ fn first_lost_field(reference: &Value, got: &Value) -> Option<String> {
 
 pub fn run(tier: Tier, seed: u64) -> MonOut {
     let saved = silence_stderr();
-    let n = tier.n(40, 800);
+    let n = tier.n(160, 3_200);
     let base = Rng::new(seed);
     let mut rep = Report::new();
     for i in 0..n {
